@@ -21,7 +21,7 @@ Contents
 5. Genuine defects found on the pinned tree, their repair, the one known finding
 6. Limits, honest non-coverage, tooling limits, known false-alarm surface
 7. Interface (commands, exit codes, evidence, known findings, thorough tier)
-8. Validation of the machinery: six rounds of seeded mutations, controls, six
+8. Validation of the machinery: six rounds of seeded mutations, controls, seven
    rounds of behaviour-preserving refactorings; which check catches which change;
    what was missed; false alarms met and how they were removed
 
@@ -299,8 +299,9 @@ a sufficiently different (still correct) rewrite of an anchored function can
 make a rule report `violated`/`undecided`/`vacuous`: in round 4 (fresh
 refactorings after three rounds of hardening) 44 of 80 still alarmed at first, so
 the honest expectation for an unseen restructuring of an anchored function is
-"about even" - rounds 5 (46 of 80) and 6 (40 of 80) confirmed it. Of the 401 kept
-refactorings (rounds 1-6) 399 are quiet today; two of round 6 (`C14-r19`,
+"about even" - rounds 5 (46 of 80) and 6 (40 of 80) confirmed it; round 7 (31 of
+80) was the first clearly better one. Of the 481 kept
+refactorings (rounds 1-7) 479 are quiet today; two of round 6 (`C14-r19`,
 `C14-r20`: goroutine bodies moved into named functions / a reader struct) still
 alarm and are documented as open in section 8.3. The mirror and
 lockstep rules would fire on an asymmetric-but-equivalent rewrite of one twin.
@@ -525,6 +526,7 @@ Generated by `tools/gen_matrix.py` from the thorough-tier evidence (also in
 r4='/verif/tools/round4.md'
 r5='/verif/tools/round5.md'
 r6='/verif/tools/round6.md'
-doc=doc.replace('ROUND4_PLACEHOLDER', (open(r4).read() if os.path.exists(r4) else '(round 4 results pending)') + '\n' + (open(r5).read() if os.path.exists(r5) else '') + '\n' + (open(r6).read() if os.path.exists(r6) else ''))
+r7='/verif/tools/round7.md'
+doc=doc.replace('ROUND4_PLACEHOLDER', (open(r4).read() if os.path.exists(r4) else '(round 4 results pending)') + '\n' + (open(r5).read() if os.path.exists(r5) else '') + '\n' + (open(r6).read() if os.path.exists(r6) else '') + '\n' + (open(r7).read() if os.path.exists(r7) else ''))
 open('/verif/DESIGN.md','w').write(doc)
 print(len(doc.splitlines()),'lines')
